@@ -952,7 +952,7 @@ impl<'a> Searcher<'a> {
         }
 
         match value.get_type() {
-            VariantType::Int => Variant::from_int(-value.to_int()),
+            VariantType::Int => Variant::from_int(value.to_int().checked_neg().unwrap_or(i64::MAX)),
             VariantType::Float => Variant::from_float(-value.to_float()),
             _ => match value.to_string().parse::<f64>() {
                 Ok(number) => Variant::from_float(-number),
